@@ -40,7 +40,8 @@ def check(run):
         evals += r[1]
         nontriv += r[2] if len(r) > 2 else 0
 
-    # the compile-time grid runs concurrently with the run-time sweeps (it is mostly compiler latency)
+    # the compile-time grid (mostly compiler latency) runs concurrently with pass 2 below; like the
+    # factor finder it evaluates Pollard rho (in the compiler), so it is gated by pass 1 as well
     import threading
     ct_box = {}
 
@@ -51,7 +52,6 @@ def check(run):
             ct_box["e"] = e
 
     th = threading.Thread(target=ct_thread, daemon=True)
-    th.start()
     tmo = 600 if quick else 2400
     # Pass 1: everything that does not call find_prime_factor.  The factor finder relies on is_prime
     # and on the modular helpers and need not terminate when those are wrong, so it is only run
@@ -65,6 +65,7 @@ def check(run):
     sw.sweep(first, max(30, left() * (0.45 if quick else 0.5)), tmo)
     gate = not run.violations
     if gate:
+        th.start()
         take(L.explore_families(run, col, exes["families"], tier, True, tmo))
         colls = [c["n"] for c in cov.get("wrap_collision_list", [])]
         if colls:
@@ -85,7 +86,10 @@ def check(run):
         r = L.explore_wrapsq(run, col, exes["wrapsq"], budget, "b")
         r[0]["wrap_first_pass_A_values"] = cov.get("wrap_A_values")
         take(r)
-    th.join()
+    if gate:
+        th.join()
+    else:
+        ct_box["e"] = core.InfraError("compile-time grid not run: pass 1 reported violations")
     if "e" in ct_box:
         # e.g. the library headers themselves no longer compile (mag<N>() of a constant trips the
         # Prime<N> static_assert).  Run-time violations already found must not be masked by that.
